@@ -148,7 +148,8 @@ func run[V any](r *engine.Rec, c *cfg[V]) {
 	s := &seqx.Search[Op]{Name: name, MaxSize: c.maxSize}
 	s.Inits = []Op{{K: "Make"}}
 	if c.collator == nil {
-		s.Inits = append(s.Inits, Op{K: "MakeFromArray", S: 2}, Op{K: "MakeFromArray", S: 4}, Op{K: "MakeFromSequence", S: 4}, Op{K: "MakeFromArray", S: 0})
+		s.Inits = append(s.Inits, Op{K: "MakeFromArray", S: 2}, Op{K: "MakeFromArray", S: 4}, Op{K: "MakeFromSequence", S: 4}, Op{K: "MakeFromArray", S: 0},
+			Op{K: "MakeFromSequenceOfReversedSet", S: 4}, Op{K: "MakeFromSequenceOfReversedSet", S: 2}, Op{K: "MakeFromSequenceOfDefaultSet", S: 4})
 	}
 	s.Ops = func(n int) []Op {
 		var ops []Op
@@ -183,6 +184,22 @@ func run[V any](r *engine.Rec, c *cfg[V]) {
 			case "MakeFromSequence":
 				seq, vals := operand[V](c, op.S, nil, nil)
 				set = col.Set[V](common.N()).MakeFromSequence(seq)
+				for _, v := range vals {
+					m = mAdd(c, m, v)
+				}
+			case "MakeFromSequenceOfReversedSet", "MakeFromSequenceOfDefaultSet":
+				// the source is itself a set, ordered by its own (possibly different) collator
+				_, vals := operand[V](c, op.S, nil, nil)
+				var src col.SetLike[V]
+				if op.K == "MakeFromSequenceOfReversedSet" {
+					src = col.Set[V](common.N()).MakeWithCollator(&FnCollator[V]{Name: "reversed", F: func(a, b V) age.Rank { return c.rank(b, a) }})
+				} else {
+					src = col.Set[V](common.N()).Make()
+				}
+				for _, v := range vals {
+					src.AddValue(v)
+				}
+				set = col.Set[V](common.N()).MakeFromSequence(src)
 				for _, v := range vals {
 					m = mAdd(c, m, v)
 				}
